@@ -130,6 +130,12 @@ def wire_check(layers, b):
             if len(rem) < 8: return (k, "short")
             want = rfc1071(rem[:2] + b"\0\0" + rem[4:])
             if be(rem[2:4]) != want: return (k, "checksum %04x, RFC 1071 gives %04x" % (be(rem[2:4]), want))
+            if rem[0] == 0x22:            # IGMPv3 report (RFC 3376 §4.2): the group records must tile the message exactly
+                p = 8
+                for _ in range(be(rem[6:8])):
+                    if p + 8 > len(rem): return (k, "group record header runs past the message")
+                    p += 8 + 4 * be(rem[p + 2:p + 4]) + 4 * rem[p + 1]
+                if p != len(rem): return (k, "group record counts cover %d of %d bytes" % (p, len(rem)))
             return None
         elif k == "gre":
             if len(rem) < 4: return (k, "short")
@@ -1047,6 +1053,8 @@ class C14(Check):
                 for skip in (None, 0, 5):
                     cases.append({"kind": "cksum", "data": fill.hex(), "start": 0, "skip": skip})
         cases.append({"kind": "cksum", "data": "0001f203f4f5f6f7", "start": 0, "skip": None})
+        for d in ("ffffffff0100", "ffffffff0001", "ffffffffffff0200", "01ffffffff", "ffff" * 300 + "0100"):      # first fold carries
+            cases.append({"kind": "cksum", "data": d, "start": 0, "skip": None})
         cases.append({"kind": "cksum", "data": "ff" * 1501, "start": 0, "skip": None})
         # --- IPv4/UDP, IPv4/TCP, IPv4/ICMP echo with every payload length 0..33 (odd and even), fixed fields
         E = {"k": "ethernet", "dst": "66778899aabb", "src": "001122334455", "type": 0x0800}
@@ -1064,7 +1072,7 @@ class C14(Check):
         for n in (1471, 1472, 1473, 1480):
             cases.append(self._stack([E, I(17), U, {"k": "bytes", "data": (b"\xa5" * n).hex()}]))
         # UDP checksum that comes out as 0 -> transmitted as 0xffff (payload chosen so that the sum is 0xffff)
-        cases.append(self._stack([E, I(17, srcip=0, dstip=0), dict(U, srcport=0, dstport=0), {"k": "bytes", "data": "ffcd"}]))
+        cases.append(self._stack([E, I(17, srcip=0, dstip=0), dict(U, srcport=0, dstport=0), {"k": "bytes", "data": "ffda"}]))
         # --- options / VLAN / ARP / ICMP errors, one of each
         cases.append(self._stack([E, I(253, hl=7, raw_options="0101010144040500"), {"k": "bytes", "data": "616263"}]))
         for opts in ([{"t": 2, "v": 1460}], [{"t": 1}, {"t": 1}, {"t": 4}, {"t": 8, "v": [1, 2]}], [{"t": 3, "v": 7}], [{"t": 5, "v": [[1, 2]]}],
